@@ -26,11 +26,11 @@ package fingerprint
 //@   ensures [C06:value-from-own-connection-record-only] hasMeta(req.reqCtx) ==> fp == fcall("FingerprintFunc", i.FingerprintFunc, ctxMeta(req.reqCtx))
 
 //@ func NewFingerprintHeaderInjector :: headerName, fingerprintFunc -> i
-//@   props C01
+//@   props C01,C06
 //@   ensures [C01:injector-wiring] i != nil && fresh(i) && i.HeaderName == headerName && i.FingerprintFunc == fingerprintFunc
 
 //@ func (*HTTP2FingerprintParam).HTTP2Fingerprint :: p, data -> fp, err
-//@   props C03
+//@   props C03,C06
 //@   requires p != nil && data != nil
 //@   assigns nothing
 //@   ensures [C03:h2-only] data.ConnectionState.NegotiatedProtocol == "h2" ==> err == nil && fp == h2fp(data.HTTP2Frames, p.MaxPriorityFrames)
@@ -49,7 +49,7 @@ package fingerprint
 //@   ensures err == nil ==> ch.HandshakeVersion == chVersion(payload) && ch.CipherSuites == chCiphers(payload) && ch.AllExtensions == chExts(payload) && ch.SupportedGroups == chGroups(payload) && ch.SupportedPoints == chPoints(payload)
 
 //@ func JA3Fingerprint :: data -> fp, err
-//@   props C01
+//@   props C01,C06
 //@   requires data != nil
 //@   assigns nothing
 //@   ensures [C01:pure-function-of-record] err == nil ==> fp == hexstr(md5sum(ja3fields(chVersion(data.ClientHelloRecord), chCiphers(data.ClientHelloRecord), chExts(data.ClientHelloRecord), chGroups(data.ClientHelloRecord), chPoints(data.ClientHelloRecord))))
